@@ -160,12 +160,10 @@ def match_by_context(cur, pin):
     back = sorted(((score[(c2, p_)], c2) for c2 in restc), reverse=True)
     if back[0][1] == c and (len(back) == 1 or back[1][0] < back[0][0]):
       mp[c] = p_
-  # weaker evidence, still mutual best and unambiguous: a third of the contexts shared; or the only local left over on both sides with something in common
+  # weaker evidence, still mutual best and unambiguous: a third, then a fifth of the contexts shared
   for thr in (0.34, 0.2):
     leftc = [c for c in restc if c not in mp]
     leftp = [p_ for p_ in restp if p_ not in mp.values()]
-    if thr == 0.2 and not (len(leftc) == 1 and len(leftp) == 1):
-      break
     for c in leftc:
       cands = sorted(((score[(c, p_)], p_) for p_ in leftp if p_ not in mp.values()), reverse=True)
       if not cands or cands[0][0] < thr or (len(cands) > 1 and cands[1][0] == cands[0][0]):
